@@ -1,5 +1,5 @@
 SPECIFICATION Spec
-CONSTANTS MaxLen = 6 NumGens = 2 Defect = "basickey" Impls = {"RayTracing", "Interpolation"}
+CONSTANTS MaxLen = 6 NumGens = 2 Defect = "basickey" Impls = {"RayTracing", "Interpolation", "FromFile"}
 INVARIANTS InvCache InvGet InvLast InvGen InvSetUp InvRefused
 VIEW View
 CHECK_DEADLOCK FALSE
